@@ -214,10 +214,12 @@ def mc_parc_part(chk, w, tier):
     pots = potential_insts(w, 6 if not thorough else 20)
     for cfg, k in plans:
         f = os.path.join(w, f"parc_insts_{k}.json")
-        pool = insts if "w3" not in cfg else [i for i in insts if i["n"] <= 5]        # three workers: smaller instances (the state space grows fast)
-        json.dump(pool[:k] + pots[: max(2, k // 6)], open(f, "w"))
+        w3 = "w3" in cfg                                                                # three workers: n <= 4 only (with n = 5 the state space no longer fits: 25 GB of states after 80 min)
+        pool = insts if not w3 else [i for i in insts if i["n"] <= 4]
+        used = pool[:k] + [i for i in pots if not w3 or i["n"] <= 4][: max(2, k // 6)]
+        json.dump(used, open(f, "w"))
         r = mc("MC_ParC", cfg, workers=8, env={"INSTS": f}, timeout=5400, require_actions=False, coverage=False)      # (coverage statistics cost 10x here)
-        chk.add_mc(cfg, r, constants=f"Widths = {{1,2}} Cuts = {{lel, fc}}; {min(k, len(insts))} re-convergent instances (n <= 6) + {len(pots[: max(2, k // 6)])} deferred-rewards instances: complete parallel caching searches, "
+        chk.add_mc(cfg, r, constants=f"Widths = {{1,2}} Cuts = {{lel, fc}}; {len(used)} instances (re-convergent and deferred-rewards families, n <= {max([i['n'] for i in used] + [0])}): complete parallel caching searches, "
                                      "every interleaving of critical sections, diagram layers and cache publications, every tie-break")
 
 
